@@ -33,7 +33,7 @@ ASSUMPTIONS = [
     "to-dates are only used where own-date order and instant order agree across the cut (KF1 region excluded)",
 ]
 SETTINGS: Dict[str, Dict[str, Any]] = {
-    "quick": {"cases": 500, "cli_cases": 24, "budget_s": 50, "minimums": {"cuts_checked": 3000, "nontrivial": 1500, "todate_pairs": 500, "cli_pairs": 3}},
+    "quick": {"cases": 500, "cli_cases": 48, "budget_s": 50, "minimums": {"cuts_checked": 3000, "nontrivial": 1500, "todate_pairs": 500, "cli_pairs": 3}},
     "thorough": {"cases": 30000, "cli_cases": 150, "budget_s": 420, "minimums": {"cuts_checked": 150000, "nontrivial": 80000, "todate_pairs": 25000, "cli_pairs": 75}},
 }
 PROFILES = [
